@@ -570,7 +570,9 @@ def replay_v2(chk: Check, df, rows, states, seen: dict | None = None, keys=None)
 # ------------------------------------------------------------------------------------------------
 def graph_paths(g):
     """BFS-tree root-to-leaf paths as lists of node ids; nodes converted lazily."""
-    return g.bfs_paths()
+    import random as _random
+    # tree paths (every node) + a stratified sample of the non-tree edges (the same event after another history)
+    return g.bfs_paths() + g.sample_paths(g.edge_paths(), 1500, _random.Random(0))
 
 
 def retry(fn, *a, **kw):
